@@ -3,7 +3,7 @@
    order, SetOrderBookParticipation replaces the record with the same index.  They ARE the model's settle_participation and batch_parts
    (budget, "all settled" flag, settled count, records, effects). *)
 From Coq Require Import ZArith Bool List Lia.
-From Sge Require Import Lib.Dec Model.Types Model.Orderbook Model.Chain Gen.kernels Proofs.GenKernels.
+From Sge Require Import Lib.Dec Model.Types Model.Orderbook Model.Chain Gen.kernels Proofs.GenOb.
 Import ListNotations.
 Open Scope Z_scope.
 
